@@ -16,7 +16,12 @@ git diff > /tmp/rebased-$$.diff
 pk=$(git diff --name-only | xargs -n1 dirname | sort -u | sed 's#^#./#' | tr '\n' ' ')
 go build ./... ; b=$?
 log "build with change: exit $b"
-go test -vet=off -count=1 $pk ./server/... > /tmp/test-$$.log 2>&1; t=$?
+if [ -n "$TESTCMD" ]; then
+  # a package whose baseline run already has failing/hanging tests (services/ja3/crypto/tls): caller gives the command
+  eval "$TESTCMD" > /tmp/test-$$.log 2>&1; t=$?; pk="[$TESTCMD] "
+else
+  go test -vet=off -count=1 $pk ./server/... > /tmp/test-$$.log 2>&1; t=$?
+fi
 log "tests ($pk ./server/...): exit $t"; grep -E "^(FAIL|---)" /tmp/test-$$.log | head
 (bash "$src/demo.sh" $wt >/tmp/demo1-$$.log 2>&1); d1=$?
 log "demo with change: exit $d1"
